@@ -159,6 +159,20 @@ def run(R, env):
                     R.ob("C19.R4", "%s:instantiate:subdenom" % cfgname, good, "create-denom sub-denom = %s, expected msg.liquid_stake_token_denom" % fmt(sd or ("none",))[:100], loc=h.body.loc(rb), fn=h.body.key)
                 else:
                     R.ob("C19.R4", "%s:%s:denom" % (cfgname, site), lst_denom(prog, m["denom"]), "denom = %s, expected config.liquid_stake_token_denom" % fmt(m["denom"] or ("none",))[:100], loc=h.body.loc(rb), fn=h.body.key)
+                    # the exact amount: what LiquidStake adds to total_liquid_stake_token / the pending batch total
+                    if kind == "mint":
+                        Ms = []
+                        for op_, alts_ in shared.state_writes(prog, h, env):
+                            for base_, d_ in alts_ or []:
+                                v_ = d_.get(("total_liquid_stake_token",))
+                                if v_ is not None and delta_op(v_)[0] == "+=":
+                                    Ms.append(delta_op(v_)[1])
+                        am_ok = bool(Ms) and all(shared.same_any(prog, m["amount"], M_) for M_ in Ms)
+                        R.ob("C19.R4", "%s:%s:amount" % (cfgname, site), am_ok, "minted amount %s is not the amount added to total_liquid_stake_token (%s)" % (fmt(m["amount"] or ("none",))[:100], [fmt(x)[:80] for x in Ms][:2]), loc=h.body.loc(rb), fn=h.body.key)
+                    else:
+                        a_ = m["amount"]
+                        am_ok = a_ is not None and a_[0] == "field" and a_[2] == "batch_total_liquid_stake" and shared.is_pending_batch(prog, a_[1])
+                        R.ob("C19.R4", "%s:%s:amount" % (cfgname, site), am_ok, "burned amount %s is not the pending batch's batch_total_liquid_stake" % fmt(a_ or ("none",))[:120], loc=h.body.loc(rb), fn=h.body.key)
                     good = len(args) == 3 and is_contract_addr(args[0]) and norm(args[0]) == norm(args[2])
                     R.ob("C19.R4", "%s:%s:holder==sender==contract" % (cfgname, site), good, "call arguments (sender, holder) = (%s, %s): must both be the contract address (on miniwasm a different holder is refused at run time)" % (fmt(args[0])[:60] if args else None, fmt(args[2])[:60] if len(args) > 2 else None), loc=h.body.loc(rb), fn=h.body.key)
         # LST denom construction
